@@ -173,6 +173,26 @@ func history(g *hx.Gen, steps int) {
 		}
 		return tx
 	}
+	// other transaction types that carry inputs: Record (a transfer with a blob) and TransferCrossChainAsset
+	// (payload v0, one output to an X address 900.., fee >= MinCrossChainTxFee)
+	rawOther := func(kind string, co regnet.Coin) interfaces.Transaction {
+		spCount++
+		ts := &regnet.TxSpec{Kind: kind, Nonce: fmt.Sprintf("%016x", uint64(1<<45)+uint64(spCount)),
+			Ins: []regnet.InSpec{{TxID: co.ID, Index: uint16(co.Idx)}}}
+		if kind == "rc" {
+			ts.PDatas = []string{fmt.Sprintf("%04x", r.Intn(65536))}
+			ts.Outs = []regnet.OutSpec{{Addr: r.Intn(5), Value: co.Value - 700, Pay: "-"}}
+		} else {
+			half := co.Value / 2
+			ts.Outs = []regnet.OutSpec{{Addr: 900 + r.Intn(3), Value: half, Pay: "-"}, {Addr: co.Addr, Value: co.Value - half - 20000, Pay: "-"}}
+		}
+		_, th := sim.N.Tip()
+		tx, err := sim.N.BuildTx(ts, th+1)
+		if err != nil {
+			panic("harness: " + err.Error())
+		}
+		return tx
+	}
 	sideChains := []string{"00000000000000a1", "00000000000000a2"}
 	pickCoin := func(br *regnet.Branch) *regnet.Coin {
 		var cs []regnet.Coin
@@ -278,6 +298,27 @@ func history(g *hx.Gen, steps int) {
 				h.Observe(true, 6)
 				continue
 			}
+		}
+		if c >= 82 && c < 88 && len(active.Blocks) >= 4 { // pool: Record / cross-chain transfers against transfers and each other
+			if co := pickCoin(active); co != nil && co.Value > 100000 {
+				kinds := []string{"rc", "xc"}
+				k1, k2 := kinds[r.Intn(2)], kinds[r.Intn(2)]
+				switch r.Intn(4) {
+				case 0:
+					submit(rawOther(k1, *co))
+					submit(raw(co.Addr, []regnet.Coin{*co}, []regnet.Out{{To: 1, Value: common.Fixed64(co.Value - 500)}}))
+				case 1:
+					submit(raw(co.Addr, []regnet.Coin{*co}, []regnet.Out{{To: 1, Value: common.Fixed64(co.Value - 500)}}))
+					submit(rawOther(k1, *co))
+				case 2:
+					submit(rawOther(k1, *co))
+					submit(rawOther(k2, *co))
+				default: // no conflict: the transaction just sits in the pool and is mined later
+					submit(rawOther(k1, *co))
+				}
+			}
+			h.Observe(true, 8)
+			continue
 		}
 		if c >= 88 && c < 96 && len(active.Blocks) >= 4 { // pool: side-chain mining proofs and the outpoints they spend
 			if co := pickCoin(active); co != nil {
